@@ -114,11 +114,14 @@ pub enum Op {
     CorruptDisk(u8),
     /// fault: delete the disk layer's file of k (if it exists)
     DeleteDisk(u8),
+    /// fault: make the disk layer's file of k unreadable as a cache file (its header magic is
+    /// overwritten; the payload stays) — the layer's `get` then fails instead of missing
+    BreakHeader(u8),
 }
 
 impl Op {
     fn is_fault(&self) -> bool {
-        matches!(self, Op::CorruptDisk(_) | Op::DeleteDisk(_))
+        matches!(self, Op::CorruptDisk(_) | Op::DeleteDisk(_) | Op::BreakHeader(_))
     }
     fn render(&self, nm: &mut dyn FnMut(u8) -> String) -> String {
         match self {
@@ -156,6 +159,7 @@ impl Op {
             ),
             Op::CorruptDisk(k) => format!("FAULT:corrupt_disk_file({})", nm(*k)),
             Op::DeleteDisk(k) => format!("FAULT:delete_disk_file({})", nm(*k)),
+            Op::BreakHeader(k) => format!("FAULT:break_disk_file_header({})", nm(*k)),
         }
     }
 }
@@ -227,6 +231,10 @@ fn universe_tagged(layers: u8) -> Vec<(Op, bool)> {
     for k in 0..2 {
         a.push((Op::DeleteDisk(k), false));
     }
+    // appended last: the indices of everything above are part of stored witnesses
+    for k in 0..2 {
+        a.push((Op::BreakHeader(k), false));
+    }
     a
 }
 
@@ -247,14 +255,25 @@ fn enum_alphabet(cfg: &Cfg) -> Vec<u16> {
 /// The observers executed after the last op of every history (not part of the history):
 /// per key every layer, `contains`, and the multi-layer read that cannot be confused with the
 /// op under test (`get_with_validation(k, None)`, the code path `batch_get` uses).
-fn sweep_ops(cfg: &Cfg) -> Vec<Op> {
+fn sweep_ops(cfg: &Cfg, hist: &[Op]) -> Vec<Op> {
     let mut s = Vec::new();
+    // after a header fault the batch read goes first: the per-layer observers below make the disk
+    // layer notice (and discard) the unreadable file, which would hide what the batch read does
+    // when it is the one that runs into it
+    let batch_first = hist.iter().any(|o| matches!(o, Op::BreakHeader(_)));
+    if batch_first {
+        s.push(Op::BatchGet);
+    }
     for k in 0..2 {
         for layer in 0..cfg.layers {
             s.push(Op::GetFromLayer(k, layer));
         }
         s.push(Op::Contains(k));
         s.push(Op::GetValidated(k, 0));
+    }
+    // both keys in one call — one key's damaged file must not fail the other key's answer
+    if !batch_first {
+        s.push(Op::BatchGet);
     }
     s
 }
@@ -336,6 +355,8 @@ struct Model {
     next_seq: u32,
     /// classes of events this history has shown (vacuity guard), see `EVENT_NAMES`
     events: u8,
+    /// keys whose disk file was made unreadable by `BreakHeader` (sticky for the history)
+    broken: std::collections::BTreeSet<u8>,
 }
 
 const EV_SLOWER_LAYER_SERVED: u8 = 1;
@@ -381,6 +402,7 @@ impl Model {
             last_put: BTreeMap::new(),
             next_seq: 1,
             events: 0,
+            broken: std::collections::BTreeSet::new(),
         }
     }
 
@@ -798,6 +820,26 @@ impl Exec<'_> {
                     es(rt_block_on(c.get_with_validation(&key_of(*k), ck))).map(|o| o.map(|b| b.into_bytes().to_vec())),
                 )
             }
+            Op::BreakHeader(k) => {
+                let key = key_of(*k);
+                let name = cascette_cache::key::CacheKey::as_cache_key(&key).to_string();
+                match find_file(&self.dir, &name) {
+                    None => Obs::Fault { existed: false, old: None, new: None },
+                    Some(p) => {
+                        let mut raw = std::fs::read(&p).unwrap_or_default();
+                        let off = crate::util::disk_cache_payload_offset(&raw);
+                        if off == 0 {
+                            // a tree whose cache files carry no header: nothing to break
+                            Obs::Fault { existed: false, old: None, new: None }
+                        } else {
+                            let old = Some(raw[off..].to_vec());
+                            raw[..8].copy_from_slice(b"XXXXXXXX");
+                            std::fs::write(&p, &raw).expect("fault: overwrite disk file header");
+                            Obs::Fault { existed: true, old, new: None }
+                        }
+                    }
+                }
+            }
             Op::CorruptDisk(k) | Op::DeleteDisk(k) => {
                 let key = key_of(*k);
                 let name = cascette_cache::key::CacheKey::as_cache_key(&key).to_string();
@@ -971,9 +1013,16 @@ impl Exec<'_> {
                     }
                 }
             }
-            (Op::CorruptDisk(k), Obs::Fault { existed, old, new }) | (Op::DeleteDisk(k), Obs::Fault { existed, old, new }) => {
+            (Op::CorruptDisk(k), Obs::Fault { existed, old, new })
+            | (Op::DeleteDisk(k), Obs::Fault { existed, old, new })
+            | (Op::BreakHeader(k), Obs::Fault { existed, old, new }) => {
                 if !*existed {
                     return Ok(());
+                }
+                if matches!(op, Op::BreakHeader(_)) {
+                    // modelled like a deleted file (the layer cannot answer with it any more);
+                    // in addition reads of this key may fail from now on
+                    m.broken.insert(*k);
                 }
                 m.events |= EV_FAULT_APPLIED;
                 let d = self.cfg.disk_layer();
@@ -1005,6 +1054,32 @@ impl Exec<'_> {
                 }
                 Ok(())
             }
+            // a batch read must not fail for a healthy key because another key's file is damaged
+            (Op::BatchGet, Obs::Vals(Err(e))) if !m.broken.is_empty() => {
+                for kk in [0u8, 1] {
+                    if m.broken.contains(&kk) {
+                        continue;
+                    }
+                    let floor = m.floor_of(kk);
+                    if let Some((i, ent)) = m.layers.iter().enumerate().find_map(|(i, l)| l.get(&kk).filter(|e| e.sure && e.seq >= floor).map(|e| (i, e.clone()))) {
+                        return Err(Err((
+                            "healthy-key-not-answered".into(),
+                            format!(
+                                "batch_get(k0,k1) failed ({e}) because the disk file of another key is damaged, although layer {i} holds {:?} (put #{}) for k{kk}, whose files were never touched",
+                                short(&ent.bytes),
+                                ent.seq
+                            ),
+                        )));
+                    }
+                }
+                Ok(())
+            }
+            // reads of a key whose disk file was made unreadable may fail (DECISION: an unreadable
+            // file is "found corrupted"; whether the call then reports an error or a miss is not
+            // judged, and the model state does not change)
+            (Op::Get(k), Obs::Val(Err(_))) | (Op::GetValidated(k, _), Obs::Val(Err(_))) | (Op::GetFromLayer(k, _), Obs::Val(Err(_))) if m.broken.contains(k) => Ok(()),
+            (Op::Contains(k), Obs::Bool(Err(_))) | (Op::Remove(k), Obs::Bool(Err(_))) if m.broken.contains(k) => Ok(()),
+            (Op::Promote(k, _, _), Obs::Bool(Err(_))) if m.broken.contains(k) => Ok(()),
             // errors of calls that cannot fail in this environment: not a verdict
             (_, Obs::Unit(Err(e))) | (_, Obs::Val(Err(e))) | (_, Obs::Bool(Err(e))) | (_, Obs::Vals(Err(e))) => {
                 Err(Ok(format!("{op:?} failed: {e}")))
@@ -1019,7 +1094,7 @@ fn run_history(job: &JobLine, root: &Path) -> ResLine {
     let cfg = &cfg;
     let uni = universe(cfg.layers);
     let hist: Vec<Op> = job.h.iter().map(|i| uni[*i as usize].clone()).collect();
-    let sweep = if job.f & 1 != 0 { sweep_ops(cfg) } else { Vec::new() };
+    let sweep = if job.f & 1 != 0 { sweep_ops(cfg, &hist) } else { Vec::new() };
     let verbose = job.f & 2 != 0;
     let dir = root.join(format!("h{}", job.id));
     let _ = std::fs::remove_dir_all(&dir);
@@ -1601,10 +1676,12 @@ struct CfgStats {
 fn explore_cfg(pool: &Pool, cfg: Cfg, depth: usize, rep: &Report, ctl: &Ctl) -> CfgStats {
     let uni = universe(cfg.layers);
     let alpha = enum_alphabet(&cfg);
-    let sweep = sweep_ops(&cfg);
-    let sweep_idx: Vec<u16> =
-        sweep.iter().map(|s| uni.iter().position(|a| a == s).expect("sweep op in universe") as u16).collect();
     let to_ops = |h: &[u16]| -> Vec<Op> { h.iter().map(|i| uni[*i as usize].clone()).collect() };
+    // universe index of the i-th observer of the sweep that follows history `h`
+    let sweep_idx_of = |h: &[u16], i: usize| -> u16 {
+        let sweep = sweep_ops(&cfg, &to_ops(h));
+        uni.iter().position(|a| *a == sweep[i]).expect("sweep op in universe") as u16
+    };
     let mut st = CfgStats::default();
     let mut frontier: Vec<Vec<u16>> = vec![vec![]];
     let unjudged_samples: Mutex<Vec<String>> = Mutex::new(Vec::new());
@@ -1668,7 +1745,7 @@ fn explore_cfg(pool: &Pool, cfg: Cfg, depth: usize, rep: &Report, ctl: &Ctl) -> 
                                 // found by the final sweep: the observer becomes the last op
                                 // of the reported history; the state is observably bad and,
                                 // like every violating history, is not extended
-                                h.push(sweep_idx[at - job.h.len()]);
+                                h.push(sweep_idx_of(&job.h, at - job.h.len()));
                             } else if at + 1 != job.h.len() {
                                 rep.bump("violations_reported_at_earlier_index", 1);
                             }
@@ -1698,7 +1775,7 @@ fn explore_cfg(pool: &Pool, cfg: Cfg, depth: usize, rep: &Report, ctl: &Ctl) -> 
                         if at >= 0 {
                             let at = at as usize;
                             if at >= job.h.len() {
-                                h.push(sweep_idx[at - job.h.len()]);
+                                h.push(sweep_idx_of(&job.h, at - job.h.len()));
                             } else {
                                 h.truncate(at + 1);
                             }
